@@ -11,6 +11,8 @@ cfg:  ["des", sp, "A"|"M"]  ["cdes", sp, "A"|"M", test]  ["det", degree]  ["bc"]
       ["ad", name]  ["hampel", w, n_sigma, k]  ["pass", flag, inner_cfg]
       ["imputer", method] ["acf", nlags] ["pacf", nlags] ["cos"]     (observed + oracle only)
 
+"pform": "np" | "int" (optional) = every parameter of the case's object is passed in an EQUAL-VALUED form (np.bool_ /
+0-1 flags, numpy integers, np.float64, np.str_); results must equal those with the builtin values.
 "pre": {"cfg": cfg0, "ops": [...]} (optional) = OBJECT HISTORY: the object is constructed with cfg0 (same class, other
 parameters), the pre ops (fit / transform / update on OTHER data) run on it, then `set_params(<parameters of cfg>)`,
 then the case's ops (which start with fit / fit_transform).  The model is run as a FRESH object with cfg: a refit
@@ -74,7 +76,9 @@ ASSUMPTIONS = [
     "duplicate labels inside a batch passed to Detrender.fit/update are not modelled (pandas combine_first semantics); such cases are not sent to the model",
     "for ACF/PACF the output index is the lag, not time: the shift clause is read as 'output unchanged'",
 ]
-RULE = ("second object: a share of all cases (and a dedicated stream: every class x same / default / neighbouring parameters) has another object "
+RULE = ("parameter forms: a share of all cases (half of the OptionalPassthrough ones) passes every parameter in an equal-valued form (np.bool_ or 0/1 "
+        "for flags, np.int64 / np.int32 for sp, degree, window, lags, np.float64, np.str_ for option names); "
+        "second object: a share of all cases (and a dedicated stream: every class x same / default / neighbouring parameters) has another object "
         "of the same class constructed, fitted, updated and used on other data between the operations of the case's object; "
         "object history: a share of all cases (and a dedicated stream: every class x every neighbouring configuration) runs on an object that was "
         "first constructed with other parameters, fitted / used on other data and then re-configured with set_params before the case's fit; "
@@ -139,8 +143,31 @@ def _sk_has_inverse(name):
     return name != "binarizer"
 
 
-def _params(cfg):
-    """constructor / set_params keyword arguments that make an object of cfg's class equivalent to _build(cfg)"""
+def _form(v, form):
+    """an EQUAL-VALUED form of a parameter value: np.bool_ / 0-1 for booleans, numpy integers for ints,
+    np.float64 for floats, np.str_ for option names"""
+    if form is None:
+        return v
+    if isinstance(v, bool):
+        return np.bool_(v) if form == "np" else int(v)
+    if isinstance(v, int):
+        return np.int64(v) if form == "np" else np.int32(v)
+    if isinstance(v, float):
+        return np.float64(v)
+    if isinstance(v, str):
+        return np.str_(v)
+    if isinstance(v, tuple):
+        return tuple(_form(x, form) for x in v)
+    return v
+
+
+def _params(cfg, form=None):
+    """constructor / set_params keyword arguments that make an object of cfg's class equivalent to _build(cfg);
+    `form`: None = builtin values, "np" / "int" = equal-valued numpy / integer forms"""
+    return {k: _form(v, form) for k, v in _params_plain(cfg, form).items()}
+
+
+def _params_plain(cfg, form=None):
     k = cfg[0]
     if k in ("des", "cdes"):
         d = {"sp": cfg[1], "model": "additive" if cfg[2] == "A" else "multiplicative"}
@@ -152,7 +179,7 @@ def _params(cfg):
         from sktime.forecasting.trend import PolynomialTrendForecaster
         if cfg[1] == 1 and len(cfg) > 2 and cfg[2] == "default":
             return {"forecaster": None}
-        return {"forecaster": PolynomialTrendForecaster(degree=cfg[1])}
+        return {"forecaster": PolynomialTrendForecaster(degree=_form(cfg[1], form))}
     if k == "bc":
         b = cfg[1] if len(cfg) > 1 else None
         return {"bounds": tuple(b) if b else None, "method": cfg[2] if len(cfg) > 2 else "mle"}
@@ -161,7 +188,7 @@ def _params(cfg):
     if k == "hampel":
         return {"window_length": cfg[1], "n_sigma": cfg[2], "k": cfg[3]}
     if k == "pass":
-        return {"transformer": _build(cfg[2]), "passthrough": bool(cfg[1])}
+        return {"transformer": _build(cfg[2], form), "passthrough": bool(cfg[1])}
     if k == "imputer":
         return {"method": cfg[1], "value": 1.5 if cfg[1] == "constant" else None}
     if k in ("acf", "pacf"):
@@ -169,46 +196,42 @@ def _params(cfg):
     return {}
 
 
-def _build(cfg):
+def _build(cfg, form=None):
     k = cfg[0]
+    pr = _params(cfg, form)
     if k == "des":
         from sktime.transformations.series.detrend import Deseasonalizer
-        return Deseasonalizer(sp=cfg[1], model="additive" if cfg[2] == "A" else "multiplicative")
+        return Deseasonalizer(**pr)
     if k == "cdes":
         from sktime.transformations.series.detrend import ConditionalDeseasonalizer
-        test = cfg[3]
-        fn = None if test == "default" else (3 if test == "notcallable" else _tests()[test])
-        return ConditionalDeseasonalizer(seasonality_test=fn, sp=cfg[1], model="additive" if cfg[2] == "A" else "multiplicative")
+        return ConditionalDeseasonalizer(**pr)
     if k == "det":
         from sktime.transformations.series.detrend import Detrender
-        from sktime.forecasting.trend import PolynomialTrendForecaster
-        if cfg[1] == 1 and len(cfg) > 2 and cfg[2] == "default":
-            return Detrender()
-        return Detrender(PolynomialTrendForecaster(degree=cfg[1]))
+        return Detrender() if pr["forecaster"] is None else Detrender(pr["forecaster"])
     if k == "bc":
         from sktime.transformations.series.boxcox import BoxCoxTransformer
-        return BoxCoxTransformer(**_params(cfg))
+        return BoxCoxTransformer(**pr)
     if k == "log":
         from sktime.transformations.series.boxcox import LogTransformer
         return LogTransformer()
     if k == "ad":
         from sktime.transformations.series.adapt import TabularToSeriesAdaptor
-        return TabularToSeriesAdaptor(_sk(cfg[1]))
+        return TabularToSeriesAdaptor(pr["transformer"])
     if k == "hampel":
         from sktime.transformations.series.outlier_detection import HampelFilter
-        return HampelFilter(window_length=cfg[1], n_sigma=cfg[2], k=cfg[3])
+        return HampelFilter(**pr)
     if k == "pass":
         from sktime.transformations.series.compose import OptionalPassthrough
-        return OptionalPassthrough(_build(cfg[2]), passthrough=bool(cfg[1]))
+        return OptionalPassthrough(pr["transformer"], passthrough=pr["passthrough"])
     if k == "imputer":
         from sktime.transformations.series.impute import Imputer
-        return Imputer(method=cfg[1]) if cfg[1] != "constant" else Imputer(method="constant", value=1.5)
+        return Imputer(method=pr["method"]) if cfg[1] != "constant" else Imputer(method=pr["method"], value=pr["value"])
     if k == "acf":
         from sktime.transformations.series.acf import AutoCorrelationTransformer
-        return AutoCorrelationTransformer(n_lags=cfg[1])
+        return AutoCorrelationTransformer(**pr)
     if k == "pacf":
         from sktime.transformations.series.acf import PartialAutoCorrelationTransformer
-        return PartialAutoCorrelationTransformer(n_lags=cfg[1])
+        return PartialAutoCorrelationTransformer(**pr)
     if k == "cos":
         from sktime.transformations.series.cos import CosineTransformer
         return CosineTransformer()
@@ -301,8 +324,9 @@ def _quiet_apply(t, op, z):
         pass
 
 
-def _run_hist(case, shift, extras=None, with_pre=True, with_other=True):
+def _run_hist(case, shift, extras=None, with_pre=True, with_other=True, plain=False):
     cfg, itype = case["cfg"], case.get("itype", "range")
+    form = None if plain else case.get("pform")
     other = case.get("other") if with_other else None
     tB = [None]
 
@@ -332,9 +356,9 @@ def _run_hist(case, shift, extras=None, with_pre=True, with_other=True):
                         _apply(t, op, _mk_input(op["z"], itype, shift))
             except Exception:
                 pass
-        t.set_params(**_params(cfg))
+        t.set_params(**_params(cfg, form))
     else:
-        t = _build(cfg)
+        t = _build(cfg, form)
     toks, sers = [], []
     for i, op in enumerate(case["ops"]):
         run_other(i)
@@ -355,7 +379,7 @@ def _run_hist(case, shift, extras=None, with_pre=True, with_other=True):
         if extras is not None:
             # fit_transform on this object vs fit-then-transform on a fresh one
             if op["op"] == "ft":
-                t2 = _build(cfg)
+                t2 = _build(cfg, form)
                 try:
                     with warnings.catch_warnings():
                         warnings.simplefilter("ignore")
@@ -413,6 +437,8 @@ def run_real(case):
             if not main or main[0].startswith(("E:", "?")) or case["ops"][0]["op"] not in ("fit", "ft"):
                 return "SKIP-PRE @@ {}"
             extras["fresh"] = " ".join(_run_hist(case, 0, None, with_pre=False, with_other=False))
+        if case.get("pform"):
+            extras["plain"] = " ".join(_run_hist(case, 0, None, plain=True))
         if case.get("other"):
             extras["alone"] = " ".join(_run_hist(case, 0, None, with_other=False))
         out = " ".join(main)
@@ -932,6 +958,18 @@ def oracle(case, out):
                         % (i, ops[i]["op"], case["pre"]["cfg"], a[:160], b[:160]))
                     break
 
+    # (8) equal-valued parameters (np.bool_ / 0-1, numpy integers, np.str_ ...) give equal results
+    if case.get("pform") and "plain" in extras:
+        plain = extras["plain"].split(" ")
+        if len(plain) == len(main):
+            for i, (a, b) in enumerate(zip(main, plain)):
+                if not _tok_close(a, b, 1e-12):
+                    add(site + ":equal-valued-parameter-treated-differently",
+                        "op %d (%s): parameters %r in their %s forms -> %s ; builtin values -> %s"
+                        % (i, ops[i]["op"], {k: repr(v) for k, v in _params(cfg, case["pform"]).items() if not hasattr(v, "get_params")},
+                           case["pform"], a[:140], b[:140]))
+                    break
+
     # (7) a second object of the same class, used in between, does not influence this one
     if case.get("other") and "alone" in extras:
         alone = extras["alone"].split(" ")
@@ -988,6 +1026,9 @@ def features(case, out):
         main = []
     f.append("ops=%d" % min(len(case["ops"]), 8))
     f.append("shift=" + ("0" if not case.get("shift") else "nonzero"))
+    if case.get("pform"):
+        f.append("param-form=" + case["pform"])
+        f.append("param-form:" + cfg[0] + ("(%s)" % ("T" if cfg[1] else "F") if cfg[0] == "pass" else ""))
     if case.get("other"):
         f.append("second-object")
         f.append("second-object:" + cfg[0] + ("(same-params)" if case["other"]["cfg"] == cfg else ""))
@@ -1546,6 +1587,11 @@ def gen_cases(tier, rng):
     for c in cases:
         if rng.random() < 0.2:
             _attach_other(rng, c)
+    # equal-valued forms of the parameters (np.bool_ / 0-1 flags, numpy integers for sp / degree / window / lags,
+    # np.float64, np.str_ option names) for a share of all cases; half of the OptionalPassthrough cases
+    for c in cases:
+        if c["cfg"][0] not in ("log", "cos") and rng.random() < (0.5 if c["cfg"][0] == "pass" else 0.2):
+            c["pform"] = rng.choice(["np", "int"])
     # object history for a share of all other cases (the first call must be a fit on a valid series)
     for c in cases:
         if rng.random() < 0.25:
@@ -1597,6 +1643,8 @@ def shrink(c):
                     yield dict(c, other=dict(c["other"], steps=st[:j] + [dict(sj, ops=sj["ops"][:m] + sj["ops"][m + 1:])] + st[j + 1:]))
     if c.get("pre"):
         yield {k: v for k, v in c.items() if k != "pre"}
+    if c.get("pform"):
+        yield {k: v for k, v in c.items() if k != "pform"}
     for i in range(len(ops) - 1, -1, -1):
         if len(ops) > 1:
             yield _drop_op(c, i)
